@@ -1,9 +1,12 @@
 // C19 — strict DER decoding is canonical in both ASN.1 codecs.
 //
 // Engine E2, generator G-bytes (truly exhaustive): every short encoding of an
-// INTEGER, BOOLEAN, OBJECT IDENTIFIER, BIT STRING, identifier/length header
-// and a grid of GeneralizedTime strings is decoded by encoding/asn1 and by the
-// cryptobyte readers with asn1.AllowPermissiveParsing = false.
+// INTEGER, BOOLEAN, OBJECT IDENTIFIER, BIT STRING, identifier/length header,
+// a grid of GeneralizedTime strings and a family of long elements (127..257,
+// 65535, 65536 content octets under every length form) is decoded by
+// encoding/asn1 and by the cryptobyte readers with
+// asn1.AllowPermissiveParsing = false. Accepted cases are decoded again with a
+// trailing octet and under the other identifier octets of the same tag number.
 //
 // Oracle (from the property statement): the decoder rejects, OR re-encoding the
 // decoded value with the same library reproduces exactly the consumed bytes.
@@ -74,7 +77,7 @@ var vText = []string{
 type witness struct {
 	Family   string `json:"family"`
 	Target   string `json:"target"`
-	CaseHex  string `json:"case_hex"` // argument of the family's evaluator (zero bytes beyond it up to case_len)
+	CaseHex  string `json:"case_hex"` // argument of the family's evaluator (first 160 octets; only TAG/LENGTH cases are longer: fillAt(i) beyond)
 	CaseLen  int    `json:"case_len"`
 	InputHex string `json:"input_hex"` // first octets of the encoding handed to the decoder
 	InputLen int    `json:"input_len"`
@@ -90,7 +93,7 @@ type vkey struct {
 type vrec struct {
 	sig   string
 	count int64
-	cs    []byte // smallest case so far (first 160 octets; every case is zero beyond them)
+	cs    []byte // smallest case so far (first 160 octets; longer cases hold fillAt(i) beyond them)
 	csLen int
 	in    []byte
 	inLen int
@@ -118,13 +121,20 @@ type W struct {
 	out     []byte // scratch for builders
 	bld     *cryptobyte.Builder
 	s       cryptobyte.String
-	big     []byte // header family: zero buffer
+	big     []byte // header family: buffer holding fillAt(i) at offset i
 	limit   int    // header family: largest contents length that is supplied
+	long    []byte // long-contents families: decoder input
 	d       dests
+
+	// allVariants: the trailing-octet and other-identifier variants run on every
+	// accepted 3-octet INTEGER / OID case (thorough tier, replay) instead of the
+	// slice described in the rule text (INTEGER: first and last octet in edge6; OID: last octet in edge6).
+	allVariants bool
 }
 
 func newW(c *ev.Ctx, f *family) *W {
-	return &W{c: c, f: f, hist: make([]int64, len(f.targets)*nKinds*maxIdx), viol: map[vkey]*vrec{}, out: make([]byte, 0, 512), bld: new(cryptobyte.Builder)}
+	return &W{c: c, f: f, hist: make([]int64, len(f.targets)*nKinds*maxIdx), viol: map[vkey]*vrec{}, out: make([]byte, 0, 512), bld: new(cryptobyte.Builder),
+		allVariants: !c.Quick() || c.Replay != nil}
 }
 
 func (w *W) bump(t, kind, idx int) { w.hist[(t*nKinds+kind)*maxIdx+idx]++ }
@@ -478,35 +488,46 @@ func main() {
 		// the live heap is tiny: collect less often than the default pacer would.
 		setGC()
 
-		fams := []*family{famInt, famBool, famOID, famBit, famHdr, famTime}
+		fams := []*family{famInt, famBool, famOID, famBit, famHdr, famTime, famIntLong, famBitLong, famOIDLong, famOct}
 		if c.Replay != nil {
 			replay(c, fams)
 			return
 		}
 		thorough := !c.Quick()
 		hdrLimit := ev.Pick(c, 1<<17, 1<<24)
-		c.Rule("G-bytes, permissive parsing off. One case = one byte string; it is decoded by every listed target of both codecs. " +
-			"INTEGER: all contents of 0..3 octets + boundary family (lengths 4,5,8,9,10; first two and last octet over {00,01,7f,80,fe,ff}, fill over {00,5a,ff}), 12 targets (the two beyond the design's list, asn1 interface{} and cryptobyte *int32, skip the 2^24 three-octet contents); " +
-			"BOOLEAN: all contents of 0..2 octets; OID: all bodies of 0..3 octets (quick) / 0..4 octets (thorough) + 5..6-octet sub-identifier boundary family; " +
+		c.Rule("G-bytes, permissive parsing off. One case = one byte string (or a 9-octet descriptor of a long element); it is decoded by every listed target of both codecs. " +
+			"INTEGER: all contents of 0..3 octets + boundary family (lengths 4,5,8,9,10; first two and last octet over E6={00,01,7f,80,fe,ff}, fill over {00,5a,ff}), 19 targets: 6 encoding/asn1 destinations, cryptobyte ReadASN1Integer into *int8/*int16/*int32/*int64/*int/*uint8/*uint16/*uint32/*uint64/*uint/*big.Int (exact oracle: accepted iff canonical and the value fits the destination type), ReadASN1Int64WithTag, ReadASN1Enum " +
+			"(asn1 interface{} and cryptobyte *int8/*int32/*int/*uint8/*uint32/*uint skip the 2^24 three-octet contents; *int16/*uint16 see all of them); " +
+			"BOOLEAN: all contents of 0..2 octets; OID: all bodies of 0..3 octets + 5..6-octet sub-identifier boundary family + all 4-octet bodies with two adjacent octets exhaustive and the two others over B8={00,01,50,7f,80,81,fe,ff} (3 x 64 x 65536; thorough: all 2^32 4-octet bodies); " +
 			"BIT STRING: all bodies of 0..3 octets (pad octet + 0..2 content octets); " +
+			"long elements (harness DER length helper): INTEGER, BIT STRING, OBJECT IDENTIFIER with 127,128,129,255,256,257 content octets, OCTET STRING with 0,1,2,126..129,255..257 (INTEGER, BIT STRING, OCTET STRING also 65535, 65536), each x length form {DER, long form with 1 or 2 superfluous leading zero octets, 0x81 L for L<128, indefinite with end-of-contents} x {complete, last content octet missing} x first/second/last content octet over type-specific edge sets x fill generators (position-dependent octets; OID: 1-, 2- and 3-octet arcs); " +
+			"variants: every case of <= 2 content octets, of the boundary and long families and every BIT STRING / GeneralizedTime case that some decoder accepts is decoded again (a) followed by one octet 0xff: consumed length and rest must be exact, (b) under the 7 other identifier octets with the same tag number (constructed bit, the three other classes, both; relative to the tag the caller passes for ReadASN1Int64WithTag): every target that states its expected identifier must reject (interface{} destinations are ANY and are skipped); " +
+			"of the 2^24 three-octet INTEGER contents the quick tier takes those with first and last octet in E6, of the three-octet OID bodies those with last octet in E6, of the four-octet OID bodies those with all octets in B8 (thorough: all three-octet cases; boundary-family bodies of 3 or 4 octets follow the same slices); " +
 			"headers: every 1,2,3-octet prefix, every 4,5,6-octet header (identifier+length octets spanning or overrunning the prefix) with octets 3.. over {00,01,7f,80,ff}, " +
 			"a high-tag-number family (8 leading octets x 1..6 subsequent octets over {00,1e,1f,7f,80,87,88,ff} x length {00,01}) and a long length-of-length family (1..9,126,127 length octets), " +
-			"each completed with zero contents of the declared length when that is at most 2^17 (thorough: at most 2^24 for the 8 identifier octets with tag number 4), plus one-short and one-long variants up to 300 octets, otherwise left truncated; " +
+			"each completed with position-dependent contents (offset i of the input holds byte(131i+7)^byte(i>>8)^byte(i>>15)) of the declared length when that is at most 2^17 (thorough: at most 2^24 for the 8 identifier octets with tag number 4), plus one-short and one-long variants up to 300 octets, otherwise left truncated; " +
 			"GeneralizedTime (cryptobyte): field grid + every single-octet substitution/truncation/extension of 20000229235959Z. " +
 			"distinct_nontrivial = cases accepted by at least one decoder (they exercise the re-encoding oracle); " +
 			"transitions = decode and re-encode calls on the real code; traces = accepted decodes whose re-encoding was compared")
 		c.Assume("reference DER predicates in ref.go transcribe X.690 8.x/10/11 and are independent of zcrypto",
 			"re-encoders: asn1.Marshal for encoding/asn1 values; Builder.AddASN1* (Builder.MarshalASN1 for BIT STRINGs with unused bits) for cryptobyte values",
-			"over-rejection is a violation only for canonical encodings inside the documented range of the target Go type; cryptobyte high-tag-number identifiers (documented unsupported), sub-identifiers >= 2^28 in cryptobyte (size-limited reader) and > MaxInt32 in encoding/asn1, values outside the Go type are information",
+			"over-rejection is a violation only for canonical encodings inside the documented range of the target Go type; cryptobyte high-tag-number identifiers (documented unsupported), sub-identifiers > MaxInt32 (both decoders), values outside the Go type are information",
+			"an OCTET STRING is covered as 'a tag/length header' read by the readers that expect one given identifier",
 			"GeneralizedTime: non-UTC offsets, fractional seconds, second 60 are classes on which the statement is silent: reject or accept-with-exact-round-trip are both conforming",
 			"64-bit platform (Go int = 64 bits)")
 		c.Set("header_content_limit", hdrLimit)
 
 		runFamily(c, famBool, "", byteShards(0, 2), nil)
 		runFamily(c, famTime, "", timeShards(), nil)
+		withAny := func(w *W) { w.d.withAny = true }
+		runFamily(c, famIntLong, "", longShards(intLongSpace), nil)
+		runFamily(c, famBitLong, "", longShards(bitLongSpace), nil)
+		runFamily(c, famOIDLong, "", longShards(oidLongSpace), withAny)
+		runFamily(c, famOct, "", longShards(octLongSpace), nil)
 		runFamily(c, famInt, "", append(byteShards(0, 3), intBoundaryShards()...), nil)
 		runFamily(c, famBit, "", byteShards(0, 3), nil)
-		runFamily(c, famOID, "bodies of 0..3 octets + boundary family", append(byteShards(0, 3), oidBoundaryShards()...), func(w *W) { w.d.withAny = true })
+		runFamily(c, famOID, "bodies of 0..3 octets + boundary family", append(byteShards(0, 3), oidBoundaryShards()...), withAny)
+		runFamily(c, famOID, "bodies of 4 octets, two adjacent octets exhaustive", oid4Shards(), nil)
 		if thorough {
 			debug.SetGCPercent(50) // 16 MiB inputs and re-encodings: keep the heap small
 		}
@@ -530,6 +551,9 @@ func hdrSetup(limit int) func(w *W) {
 	return func(w *W) {
 		w.limit = limit
 		w.big = make([]byte, limit+160)
+		for i := range w.big {
+			w.big[i] = fillAt(i)
+		}
 		w.out = make([]byte, 0, limit+64)
 	}
 }
@@ -551,6 +575,11 @@ func replay(c *ev.Ctx, fams []*family) {
 		}
 		cs := make([]byte, wt.CaseLen)
 		copy(cs, head)
+		if f == famHdr { // beyond the recorded head every header case holds the position-dependent fill
+			for i := len(head); i < len(cs); i++ {
+				cs[i] = fillAt(i)
+			}
+		}
 		w.run1(cs)
 		merge(c, f, []*W{w})
 		return
